@@ -85,7 +85,12 @@ theorem faithful_of_frame {m m' : Manifest} {t : Txn} (hb : build m t = .ok m') 
   intro g' hg'
   exact build_frame i.fields f hb (hB.2 i hi f hfi) hnt g' hg'
 
-theorem build_keeps {m m' : Manifest} {t : Txn} (hb : build m t = .ok m') (hF : Faithful m) (hB : Bounded m)
+theorem register_unstable (rm : Option (List Nat)) (ixs : List Index) (a b : List Nat) :
+    register false rm ixs a b = ixs := by
+  simp [register]
+
+theorem build_keeps {m m' : Manifest} {t : Txn} (hb : build m t = .ok m') (hst : m.stable = false)
+    (hF : Faithful m) (hB : Bounded m)
     (hD : Declared t)
     (hrepl : ∀ f p, t = .dataRepl f p → replUnsafe m f p = false)
     (hnotix : ∀ new removed, t ≠ .createIndex new removed) : Faithful m' ∧ Bounded m' := by
@@ -118,7 +123,7 @@ theorem build_keeps {m m' : Manifest} {t : Txn} (hb : build m t = .ok m') (hF : 
       · exact hB.2
   | update aff removed patches news fm hit cm =>
     have hb' := hb
-    simp only [build] at hb
+    simp only [build, hst, register_unstable] at hb
     split at hb
     · cases hb
     · cases hb
@@ -208,7 +213,31 @@ theorem build_createIndex {m m' : Manifest} {new : List Index} {removed : List N
 
 /-- the invariant of the version chain -/
 def Inv (hist : List Ver) : Prop :=
-  Chain hist ∧ ∀ v ∈ hist, Faithful v.m ∧ Bounded v.m ∧ Declared v.t
+  Chain hist ∧ ∀ v ∈ hist, Faithful v.m ∧ Bounded v.m ∧ Declared v.t ∧ v.m.stable = false
+
+/-- stable row ids are a property of the table, fixed at creation -/
+theorem build_stable {m m' : Manifest} {t : Txn} (h : build m t = .ok m') : m'.stable = m.stable := by
+  cases t with
+  | append news => simp [build] at h; subst h; rfl
+  | delete aff removed =>
+    simp only [build] at h
+    split at h
+    · cases h
+    · cases h; rfl
+  | update aff removed patches news fm hit cm =>
+    simp only [build] at h
+    split at h
+    · cases h
+    · cases h; rfl
+  | createIndex new removed => simp [build] at h; subst h; rfl
+  | dataRepl f p =>
+    simp only [build] at h
+    split at h
+    · cases h
+    · split at h
+      · cases h
+      · cases h; rfl
+  | reserve n => simp [build] at h; subst h; rfl
 
 /-- SOUNDNESS OF THE CreateIndex ROW of the conflict matrix outside region (a): if the check lets an index commit
     pass a transaction, that transaction did not replace a claimed column -/
@@ -240,6 +269,15 @@ theorem contains_append_or (a b : List Nat) (f : Nat) :
     ((a ++ b).contains f || b.contains f) = (a.contains f || b.contains f) := by
   cases ha : a.contains f <;> cases hb : b.contains f <;> simp_all
 
+theorem gone_sub (m : Manifest) (aff : List (Nat × List Nat)) :
+    (gone m aff).filter (fun f => !(aff.map (·.1)).contains f) = [] := by
+  rw [List.filter_eq_nil_iff]
+  intro f hf
+  simp only [gone, List.mem_map, List.mem_filter] at hf
+  obtain ⟨fa, ⟨hfa, _⟩, rfl⟩ := hf
+  have hm : fa.1 ∈ aff.map (·.1) := List.mem_map.mpr ⟨fa, hfa, rfl⟩
+  simp [hm]
+
 /-- recording the rebased transaction does not change what was built -/
 theorem build_rebase (m : Manifest) (t : Txn) : build m (rebase m t) = build m t := by
   cases t with
@@ -254,9 +292,12 @@ theorem build_rebase (m : Manifest) (t : Txn) : build m (rebase m t) = build m t
     simp only [rebase, build]
     split
     · rfl
-    · congr 3
-      funext f
-      rw [contains_append_or]
+    · congr 1
+      · congr 1
+        · congr 1
+          funext f
+          rw [contains_append_or]
+        · rw [List.filter_append, gone_sub, List.append_nil]
   | append _ => rfl
   | createIndex _ _ => rfl
   | dataRepl _ _ => rfl
@@ -296,7 +337,7 @@ theorem commit_inv (hist hist' : List Ver) (lag : Nat) (t : Txn) (hI : Inv hist)
             have hnt : ∀ u ∈ (v :: rest).take lag, ¬ touches u.t f i.fields := by
               intro u hu
               have hu' : u ∈ v :: rest := List.mem_of_mem_take hu
-              apply createIndex_row_sound new removed u.t (hall u hu').2.2 ?_ ?_ i hi f hf
+              apply createIndex_row_sound new removed u.t (hall u hu').2.2.1 ?_ ?_ i hi f hf
               · have := hconf
                 simp only [List.any_eq_true, not_exists, not_and, Bool.not_eq_true] at this
                 exact this u hu
@@ -306,13 +347,13 @@ theorem commit_inv (hist hist' : List Ver) (lag : Nat) (t : Txn) (hI : Inv hist)
               (by rw [← hsplit]; exact hch) hnt hlt v (by rw [← hsplit]; rfl)
             refine ⟨by omega, ?_⟩
             exact covers_transfer rfl rfl hfr.2 hcov
-          | append news => exact build_keeps hb hv.1 hv.2.1 hDt (by intro _ _ h; cases h) (by intro _ _ h; cases h)
-          | delete a r => exact build_keeps hb hv.1 hv.2.1 hDt (by intro _ _ h; cases h) (by intro _ _ h; cases h)
+          | append news => exact build_keeps hb hv.2.2.2 hv.1 hv.2.1 hDt (by intro _ _ h; cases h) (by intro _ _ h; cases h)
+          | delete a r => exact build_keeps hb hv.2.2.2 hv.1 hv.2.1 hDt (by intro _ _ h; cases h) (by intro _ _ h; cases h)
           | update a r p n fm ht cm =>
-            exact build_keeps hb hv.1 hv.2.1 hDt (by intro _ _ h; cases h) (by intro _ _ h; cases h)
-          | reserve n => exact build_keeps hb hv.1 hv.2.1 hDt (by intro _ _ h; cases h) (by intro _ _ h; cases h)
+            exact build_keeps hb hv.2.2.2 hv.1 hv.2.1 hDt (by intro _ _ h; cases h) (by intro _ _ h; cases h)
+          | reserve n => exact build_keeps hb hv.2.2.2 hv.1 hv.2.1 hDt (by intro _ _ h; cases h) (by intro _ _ h; cases h)
           | dataRepl f p =>
-            apply build_keeps hb hv.1 hv.2.1 hDt ?_ (by intro _ _ h; cases h)
+            apply build_keeps hb hv.2.2.2 hv.1 hv.2.1 hDt ?_ (by intro _ _ h; cases h)
             intro f' p' heq
             cases heq
             simpa [safeTxn] using hS
@@ -320,7 +361,7 @@ theorem commit_inv (hist hist' : List Ver) (lag : Nat) (t : Txn) (hI : Inv hist)
         intro u hu
         simp only [List.mem_cons] at hu
         rcases hu with rfl | hu
-        · exact ⟨key.1, key.2, declared_rebase v.m t hDt⟩
+        · exact ⟨key.1, key.2, declared_rebase v.m t hDt, (build_stable hb).trans hv.2.2.2⟩
         · exact hall u (by simpa using hu)
 
 end LanceModel.C24
